@@ -405,6 +405,9 @@ pub struct Scenario {
     /// the output destination is unreachable: every output() call returns an error
     pub fail_outputs: bool,
     pub alt_policies: Vec<Policy>,
+    /// once a cancel has been injected, MPC messages sent by this party are never delivered (its peers
+    /// have become unresponsive: the sender's engine stays parked in the send)
+    pub hold_msgs_of_after_cancel: Option<usize>,
 }
 
 #[derive(Clone, Debug)]
@@ -521,6 +524,7 @@ pub fn explore(sc: &Scenario) -> RunRecord {
         let mut kind_counter: HashMap<RpcKind, usize> = HashMap::new();
         let mut injections = sc.injections.clone();
         let mut saw_compile = false;
+        let mut cancel_injected = false;
         let mut end = "quiescent".to_string();
         let mut quiescent = false;
         let mut stall = 0usize;
@@ -541,6 +545,9 @@ pub fn explore(sc: &Scenario) -> RunRecord {
                 };
                 if due {
                     let (_, inj) = injections.remove(k);
+                    if matches!(inj, Inject::Cancel { .. }) {
+                        cancel_injected = true;
+                    }
                     do_inject(&shared, &injected, &inj, sc, step, extra_threads);
                 } else {
                     k += 1;
@@ -554,7 +561,8 @@ pub fn explore(sc: &Scenario) -> RunRecord {
             let (coord, msgs): (Vec<usize>, Vec<usize>) = {
                 let p = shared.pending.lock().unwrap();
                 let mut c: Vec<usize> = p.iter().filter(|x| x.kind != RpcKind::Msg).map(|x| x.id).collect();
-                let mut m: Vec<usize> = p.iter().filter(|x| x.kind == RpcKind::Msg).map(|x| x.id).collect();
+                let held = |x: &Pending| cancel_injected && sc.hold_msgs_of_after_cancel == Some(x.from) && x.kind == RpcKind::Msg;
+                let mut m: Vec<usize> = p.iter().filter(|x| x.kind == RpcKind::Msg && !held(x)).map(|x| x.id).collect();
                 c.sort();
                 m.sort();
                 (c, m)
@@ -574,7 +582,7 @@ pub fn explore(sc: &Scenario) -> RunRecord {
                 // give spawned calls one more idle round, then declare quiescence
                 let before = shared.clock.load(Ordering::SeqCst);
                 tokio::time::sleep(std::time::Duration::from_secs(1)).await;
-                if shared.clock.load(Ordering::SeqCst) == before && shared.pending.lock().unwrap().is_empty() && thread_count() <= base_threads {
+                if shared.clock.load(Ordering::SeqCst) == before && shared.pending.lock().unwrap().iter().all(|x| cancel_injected && sc.hold_msgs_of_after_cancel == Some(x.from) && x.kind == RpcKind::Msg) && thread_count() <= base_threads {
                     if injections.iter().any(|(w, _)| matches!(w, When::Step(s) | When::After(s) if *s > step)) {
                         // remaining step-based injections fire at quiescence
                         step += 1;
